@@ -137,10 +137,16 @@ def unjson(v):
 class PathCtx:
     """what a harness function sees on one path"""
 
+    concrete = False
+
     def __init__(self, job):
         self.job = job
         self.e = core.eng()
         self.obs = None
+
+    def dict(self, init=None):
+        from .containers import SDict
+        return SDict(init) if init is not None else SDict()
 
     # symbolic inputs
     def bytes(self, name, n):
@@ -179,6 +185,98 @@ class PathCtx:
     def reach(self, label):
         """reachability marker (anti-vacuity): counted per label"""
         self.job.reached[label] = self.job.reached.get(label, 0) + 1
+
+
+class _RealPkg:
+    """the real, unmodified package with the attribute layout of the instrumented one"""
+
+    def __init__(self):
+        import importlib
+        for m in ('functions', 'classes', 'errors', 'parsing', 'tools', 'interfaces'):
+            try:
+                setattr(self, m, importlib.import_module('tapescript.' + m))
+            except ImportError:
+                pass
+
+
+def real_package():
+    return _RealPkg()
+
+
+class ConcreteCtx:
+    """the harness context on concrete inputs: the same harness function, run against the real package, replays a
+    counterexample and re-evaluates its obligations concretely"""
+    concrete = True
+
+    def __init__(self, inputs):
+        self.inputs = dict(inputs)
+        self.failed = {}
+        self.assumption_broken = False
+        self.reached = {}
+        self.obs = None
+        self.e = self
+
+    def dict(self, init=None):
+        return dict(init) if init is not None else {}
+
+    def bytes(self, name, n):
+        v = self.inputs.get(name)
+        v = bytes(v) if isinstance(v, (bytes, bytearray)) else b''
+        return (v + b'\x00' * n)[:n]
+
+    def int(self, name, lo=None, hi=None):
+        v = self.inputs.get(name)
+        if not isinstance(v, int) or isinstance(v, bool):
+            v = lo if lo is not None else 0
+        return v
+
+    def bool(self, name):
+        return bool(self.inputs.get(name, False))
+
+    def byte(self, name):
+        v = self.inputs.get(name, 0)
+        return v if isinstance(v, int) else 0
+
+    def input(self, name, value):
+        return self.inputs.get(name, value)
+
+    @staticmethod
+    def _truth(cond):
+        if isinstance(cond, SymBool) or z3.is_expr(cond):
+            t = z3.simplify(to_z3bool(cond))
+            if z3.is_true(t):
+                return True
+            if z3.is_false(t):
+                return False
+            raise ValueError('symbolic condition in a concrete replay')
+        return bool(cond)
+
+    def assume(self, cond):
+        if not self._truth(cond):
+            self.assumption_broken = True
+
+    def note_assumption(self, text):
+        pass
+
+    def observe(self, **kw):
+        self.obs = dict(self.obs or {}, **kw)
+
+    def check(self, name, cond, **info):
+        if not self._truth(cond):
+            self.failed.setdefault(name, {k: repr(v)[:200] for k, v in info.items()})
+
+    def reach(self, label):
+        self.reached[label] = self.reached.get(label, 0) + 1
+
+
+def auto_replay(fn):
+    """replay(inputs, params, obligation) that runs the harness function itself on the real package"""
+    def replay(inputs, params, obligation):
+        c = ConcreteCtx(inputs)
+        fn(c, real_package(), **params)
+        return {'reproduced': obligation in c.failed and not c.assumption_broken, 'failed': c.failed,
+                'assumption_broken': c.assumption_broken}
+    return replay
 
 
 class Job:
